@@ -173,9 +173,29 @@ def gen_case(rng, i, quick):
     if o["defaults"]:
         o.update(use_current=True, enforce_rules=True, include_groups=[], pool_groups=[])
     o["coll"] = rng.choice(["list", "tuple", "set"])
+    o["twice"] = (not o["defaults"]) and rng.random() < 0.12
     names = rng.sample(["CvrExport_0.json", "CvrExport_1.json", "CvrExport_10.json", "CvrExport_2.json", "CvrExport_A.json",
                         "CvrExport_b.json"], nfiles)
-    return {"opts": o, "files": files, "mode": mode, "names": sorted(names), "malformed": malformed, "layout": layout}
+    return {"opts": o, "files": files, "mode": mode, "names": sorted(names), "malformed": malformed, "layout": layout,
+            "write_order": rng.sample(range(nfiles), nfiles)}
+
+
+def exhaustive_cases():
+    """every sequence of <= 3 marks for one candidate over rank in {0,1,2} x IsVote (258 sequences), each followed by one
+    mark of a second candidate, 24 contests per session, read with and without rule enforcement"""
+    import itertools
+    alpha = [(r, iv) for r in (0, 1, 2) for iv in (True, False)]
+    seqs = [q for n in (1, 2, 3) for q in itertools.product(alpha, repeat=n)]
+    out = []
+    for start in range(0, len(seqs), 24):
+        contests = [{"id": i + 1, "marks": [(5, r, iv) for (r, iv) in q] + [(6, 1, True)]} for i, q in enumerate(seqs[start:start + 24])]
+        s = {"group": 1, "tab": 1, "tab_str": False, "batch": 1, "rec": start, "rec_str": False, "mask": None, "mask_num": None,
+             "Original": {"layout": "flat", "cards": [], "flat": contests}, "Modified": None, "mod_first": False}
+        for enf in (True, False):
+            o = {"use_current": True, "enforce_rules": enf, "include_groups": [], "pool_groups": [], "defaults": False, "coll": "list"}
+            out.append({"opts": o, "files": [[s]], "mode": "file", "names": ["CvrExport_0.json"], "malformed": False,
+                        "layout": "exhaustive-marks", "write_order": [0]})
+    return out
 
 
 # ------------------------------------------------------------------ running the implementation
@@ -215,27 +235,37 @@ def coll(o, key):
     return v if o["coll"] == "list" else tuple(v) if o["coll"] == "tuple" else set(v)
 
 
-def run_impl(files_json, names, mode, o, root):
+def run_impl(files_json, names, mode, o, root, write_order=None):
     """write the export(s) and read them with the real code; returns list of canonical records or {'exc': ..}"""
     d = tempfile.mkdtemp(prefix="c19_", dir=root)
     try:
-        for nm, fj in zip(names, files_json):
+        pairs = list(zip(names, files_json))
+        for i in (write_order or range(len(pairs))):       # creation order != name order: sorted() must do the work
+            nm, fj = pairs[i]
             with open(os.path.join(d, nm), "w") as fh:
                 json.dump({"Version": "5.10.50.85", "ElectionId": "verif", "Sessions": fj}, fh)
         if mode == "dir":     # files that must NOT be picked up
             with open(os.path.join(d, "Other_1.json"), "w") as fh:
                 json.dump({"Sessions": [{"nonsense": 1}]}, fh)
         D = DOM()
+        inc, pool = coll(o, "include_groups"), coll(o, "pool_groups")
         try:
             if o["defaults"]:
                 recs = D.read_cvrs_directory(d) if mode == "dir" else D.read_cvrs(os.path.join(d, names[0]))
             elif mode == "dir":
                 recs = D.read_cvrs_directory(d, use_current=o["use_current"], enforce_rules=o["enforce_rules"],
-                                             include_groups=coll(o, "include_groups"), pool_groups=coll(o, "pool_groups"))
+                                             include_groups=inc, pool_groups=pool)
             else:
-                recs = D.read_cvrs(os.path.join(d, names[0]), o["use_current"], o["enforce_rules"],
-                                   coll(o, "include_groups"), coll(o, "pool_groups"))
-            return [canon_record(r) for r in recs]
+                recs = D.read_cvrs(os.path.join(d, names[0]), o["use_current"], o["enforce_rules"], inc, pool)
+            first = [canon_record(r) for r in recs]
+            if o.get("twice"):          # same export read again with the same option objects: the result must be the same
+                again = D.read_cvrs_directory(d, o["use_current"], o["enforce_rules"], inc, pool) if mode == "dir" else \
+                    D.read_cvrs(os.path.join(d, names[0]), o["use_current"], o["enforce_rules"], inc, pool)
+                second = [canon_record(r) for r in again]
+                if inc != coll(o, "include_groups") or pool != coll(o, "pool_groups"):
+                    return {"exc": "option collections were modified by the call"}
+                return second if second == first else {"exc": "second read of the same export differs from the first"}
+            return first
         except Exception as e:  # noqa
             return {"exc": f"{type(e).__name__}: {e}"}
     finally:
@@ -330,6 +360,8 @@ def oracle_case(c):
     o, impl = c["opts"], c["impl_raw"]
     bad = []
     if isinstance(impl, dict):
+        if impl["exc"].startswith(("second read", "option collections")):
+            return [("reading the same export twice gives different results / alters the option collections", impl["exc"])]
         return [("read_cvrs raises on a well-formed export", impl["exc"])]
     sessions = [s for f in c["files"] for s in f]
     inc = [s for s in sessions if not o["include_groups"] or s["group"] in o["include_groups"]]
@@ -381,15 +413,16 @@ def strip(impl):
 # ------------------------------------------------------------------ entry point
 def run(ctx, res):
     rng = ctx.rng
-    n = ctx.n(700, 9000)
+    n = ctx.n(900, 9000)
     root = "/dev/shm" if os.path.isdir("/dev/shm") else None
     cases = []
     stats = {"sessions": 0, "records": 0, "mod_first_both": 0, "orig_first_both": 0, "obfuscated": 0, "dup_cand_contests": 0,
              "layouts": {}, "opts": {}, "exceptions": 0, "metamorphic_runs": 0}
-    for i in range(n):
-        c = gen_case(rng, i, ctx.quick)
+    pre = exhaustive_cases()
+    for i in range(-len(pre), n):
+        c = pre[i + len(pre)] if i < 0 else gen_case(rng, i, ctx.quick)
         o = c["opts"]
-        impl = run_impl(files_to_json(c["files"]), c["names"], c["mode"], o, root)
+        impl = run_impl(files_to_json(c["files"]), c["names"], c["mode"], o, root, c["write_order"])
         c["impl_raw"] = impl
         c["impl"] = SENTINEL if isinstance(impl, dict) else impl
         cases.append(c)
@@ -428,11 +461,11 @@ def run(ctx, res):
             if i % 2 == 0 and not isinstance(impl, dict):
                 stats["metamorphic_runs"] += 2
                 res.oracle_runs += 2
-                alt = run_impl(files_to_json(c["files"], perm_rng=rng), c["names"], c["mode"], o, root)
+                alt = run_impl(files_to_json(c["files"], perm_rng=rng), c["names"], c["mode"], o, root, c["write_order"])
                 if strip(alt) != strip(impl):
                     res.oracle_violations.append({"what": "result changes when the marks of a contest are permuted", "input": case_json(c),
                                                   "observed": {"permuted_result": C.jsonable(strip(alt))}, "signature": "C19:mark-order"})
-                alt = run_impl(files_to_json(c["files"], flip=True), c["names"], c["mode"], o, root)
+                alt = run_impl(files_to_json(c["files"], flip=True), c["names"], c["mode"], o, root, c["write_order"])
                 if strip(alt) != strip(impl):
                     res.oracle_violations.append({"what": "result changes when Original/Modified appear in the other key order",
                                                   "input": case_json(c), "observed": {"flipped_result": C.jsonable(strip(alt))},
@@ -440,7 +473,7 @@ def run(ctx, res):
     cr = C.run_corr(ctx.pid, "dom", IMPORTS, "dom_case", cases, case_lit, "agree_dom", shard=60, show="show_dom")
     res.corr.append(("Dominion.read_cvrs / read_cvrs_directory vs DominionCvr.read_cvrs_directory", cr, case_json))
     res.evaluations += len(cases)
-    res.rule = ("generated exports: 0-6 sessions per file, 1-3 files (directory mode with a non-matching file), both layouts with/without "
+    res.rule = ("all sequences of <= 3 marks of one candidate over rank {0,1,2} x IsVote, enforced and not; then generated exports: 0-6 sessions per file, 1-3 files (directory mode with a non-matching file), both layouts with/without "
                 "'Cards' (and both keys present), several cards/contests, shuffled/sorted marks with duplicate candidates, rank 0, IsVote "
                 "mixes, Original/Modified in both key orders with Modified covering a subset, obfuscated record ids with matching / "
                 "non-matching image masks, all 16 option patterns cycled, list/tuple/set option collections, defaults; 8% malformed stream "
